@@ -320,6 +320,26 @@ fn check_ml(c: &MlCase, ctx: &mut CaseCtx) -> Result<(), Failure> {
     if let Out::Ok(cs) = guard_plain(|| MlPst::commit(&ck, &sp)) {
         ctx.check(cs.g_product == cm.g_product, sig(P, "mlpst", "commit", "representation_dependent"), || "sparse and dense representations commit differently".into())?;
     }
+    // a polynomial with fewer variables than the key (the committer serves it): the same linear map over the
+    // key's own table - the sum of its evaluations times the first 2^k elements - hence equal to the
+    // commitment of the zero-padded polynomial, and additive with it
+    if nv >= 2 {
+        let k = 1 + (c.poly.seed as usize) % (nv - 1);
+        let small = mle_from_raw(k, &c.poly);
+        if let Out::Ok(cs) = guard_plain(|| MlPst::commit(&ck, &small.poly)) {
+            let naive_s = naive_sum(&ck.powers_of_g[0][..1 << k], &small.poly.evaluations).map_err(|e| Failure { sig: sig(P, "mlpst", "key", "too_short"), msg: e })?;
+            ctx.label("fewer_variables_than_the_key");
+            ctx.check(cs.g_product.into_group() == naive_s, sig(P, "mlpst", "commit", "not_key_defined_sum"), || {
+                format!("{k}-variate polynomial under a key for {nv} variables: commit != sum evals * powers_of_g[0]")
+            })?;
+            let mut padded = small.poly.evaluations.clone();
+            padded.resize(1 << nv, Fr::zero());
+            let pad = MLE::from_evaluations_vec(nv, padded);
+            if let Out::Ok(cp) = guard_plain(|| MlPst::commit(&ck, &pad)) {
+                ctx.check(cp.g_product == cs.g_product, sig(P, "mlpst", "commit", "representation_dependent"), || "a polynomial and its zero-padded copy commit differently".into())?;
+            }
+        }
+    }
     Ok(())
 }
 
